@@ -2,6 +2,7 @@ package main
 
 import (
 	"fmt"
+	"sort"
 	"go/token"
 	"go/types"
 	"strings"
@@ -103,8 +104,46 @@ func (u *Unit) execCall(fr *frame, st *State, call *ssa.CallCommon, instr ssa.Va
 		if u.noPanic() {
 			u.oblige(st, "nopanic", "call of nil function value", pos, Neq(sc.T, TNil), "")
 		}
+		// the value may be one of the closures created in this unit (e.g. a slice literal of method values)
+		if len(u.closures) > 0 && len(u.closures) <= 6 && u.w.funcFieldContract(call.Value) == nil {
+			var ids []string
+			for id := range u.closures {
+				ids = append(ids, id)
+			}
+			sort.Strings(ids)
+			var outs []retState
+			rest := st.Clone()
+			for _, id := range ids {
+				cv := u.closures[id]
+				if !types.Identical(cv.Fn.Signature.Params(), call.Signature().Params()) && cv.Fn.Signature.Params().Len() != call.Signature().Params().Len() {
+					continue
+				}
+				cs := st.Clone()
+				is := Eq(sc.T, cv.ID)
+				cs.G = u.ctx.Named("g", And(st.G, is))
+				rest.G = u.ctx.Named("g", And(rest.G, Not(is)))
+				r := u.staticCall(fr, cs, cv.Fn, args, cv.Bind, resT, pos)
+				outs = append(outs, retState{cs, []Value{r}})
+			}
+			u.note("call through a function value: case split over the closures created in this unit; any other value havocs the heap")
+			u.havocAll(rest, "unknown function value call at "+u.posOf(pos))
+			outs = append(outs, retState{rest, []Value{u.freshResult(rest, resT, "fv")}})
+			merged := outs[0].st
+			val := outs[0].vals[0]
+			for i := 1; i < len(outs); i++ {
+				cnd := merged.G
+				merged = u.mergeStates(merged, outs[i].st)
+				if val != nil && outs[i].vals[0] != nil {
+					val = u.mergeVal(cnd, val, outs[i].vals[0])
+				}
+			}
+			*st = *merged
+			return val
+		}
 		if c := u.w.funcFieldContract(call.Value); c != nil {
-			return u.applyContract(fr, st, nil, c, fieldContractParams(call, args), resT, pos, "func value "+c.Func)
+			ps := fieldContractParams(call, args)
+			ps["fn"] = Sc{sc.T, types.Typ[types.UnsafePointer]}
+			return u.applyContract(fr, st, nil, c, ps, resT, pos, "func value "+c.Func)
 		}
 	}
 	u.note("call through unknown function value at " + u.posOf(pos) + ": heap havocked")
@@ -174,15 +213,50 @@ func (u *Unit) staticCall(fr *frame, st *State, callee *ssa.Function, args []Val
 	c := u.w.contractFor(callee)
 	if c != nil && !c.Inline {
 		params := map[string]Value{}
-		for i, p := range callee.Params {
-			if i < len(args) {
-				params[p.Name()] = args[i]
+		// positional aliases: recv, arg0, arg1, ... (receiver first when there is one)
+		off := 0
+		if callee.Signature.Recv() != nil && len(args) > 0 {
+			params["recv"] = args[0]
+			off = 1
+		}
+		for i := off; i < len(args); i++ {
+			params[fmt.Sprintf("arg%d", i-off)] = args[i]
+		}
+		if len(callee.Params) > 0 {
+			for i, p := range callee.Params {
+				if i < len(args) {
+					params[p.Name()] = args[i]
+				}
+			}
+		} else {
+			// functions loaded from export data carry no ssa parameters: use the signature's names
+			if rv := callee.Signature.Recv(); rv != nil && len(args) > 0 && rv.Name() != "" && rv.Name() != "_" {
+				params[rv.Name()] = args[0]
+			}
+			ps := callee.Signature.Params()
+			for i := 0; i < ps.Len() && i+off < len(args); i++ {
+				if n := ps.At(i).Name(); n != "" && n != "_" {
+					params[n] = args[i+off]
+				}
 			}
 		}
 		return u.applyContract(fr, st, callee, c, params, resT, pos, funcKey(callee))
 	}
 	if u.canInline(callee, c) {
 		return u.inlineCall(fr, st, callee, c, args, binds, resT, pos)
+	}
+	if callee.Name() == "DeepCopy" && c == nil {
+		u.note("A-DEEPCOPY: DeepCopy() without contract returns a new object (content unconstrained) and leaves every existing object unchanged")
+		if resT != nil && scalarSort(resT) == SInt && isPointerLike(resT) {
+			r := u.newObject(st)
+			if len(args) > 0 {
+				if a0, ok := args[0].(Sc); ok {
+					return Sc{u.ctx.Named("dc", Ite(Eq(a0.T, TNil), TNil, r)), resT}
+				}
+			}
+			return Sc{r, resT}
+		}
+		return u.freshResult(st, resT, "deepcopy")
 	}
 	if callee.Blocks == nil {
 		return u.externalDefault(st, callee, args, resT, pos)
@@ -306,14 +380,20 @@ func (u *Unit) applyContract(fr *frame, st *State, callee *ssa.Function, c *Cont
 		t := env.evalBool(rq.Expr)
 		u.oblige(st, "pre", fmt.Sprintf("precondition %d of %s: %s", i+1, name, rq.Text), pos, t, "")
 	}
+	if callee != nil && c.Decreases != nil && u.c != nil && u.c.Decreases != nil && u.measure0 != nil && u.w.sameRecursionGroup(callee, u.fn) {
+		m1 := u.asSc(env.eval(c.Decreases.Expr), nil).T
+		u.oblige(st, "decreases", fmt.Sprintf("recursive call to %s decreases the measure %s (and the measure is bounded below)", name, c.Decreases.Text), pos, And(Cmp("<", m1, *u.measure0), Cmp(">=", *u.measure0, u.coerce(TZero, u.measure0.Sort))), "")
+	}
 	pre := st.Clone()
 	if c.ModAll {
 		u.havocAll(st, "contract of "+name+" modifies *")
 	} else {
+		var items []modItem
 		for _, m := range c.Modifies {
-			for _, it := range env.modItems(m.Expr) {
-				u.havocItem(st, it)
-			}
+			items = append(items, env.modItems(m.Expr)...) // all targets are evaluated in the pre-call state
+		}
+		for _, it := range items {
+			u.havocItem(st, it)
 		}
 		if !c.Pure {
 			u.bumpAlloc(st)
@@ -400,6 +480,14 @@ func (u *Unit) invokeCall(fr *frame, st *State, call *ssa.CallCommon, recv Value
 		u.note("A-LOG: logging/metrics calls are no-ops")
 		return u.freshResult(st, resT, "log")
 	}
+	if isErrorType(call.Value.Type()) && call.Method.Name() == "Error" {
+		if u.noPanic() {
+			u.oblige(st, "nopanic", "Error() on nil error", pos, Neq(rsc.T, TNil), "")
+		}
+		f := u.ctx.Fun("error_message", []string{SInt}, SStr)
+		u.note("error.Error(): read-only, deterministic uninterpreted message of the error value")
+		return Sc{app(f, SStr, rsc.T), types.Typ[types.String]}
+	}
 	if u.noPanic() {
 		u.oblige(st, "nopanic", "method call on nil interface: "+call.Method.Name(), pos, Neq(rsc.T, TNil), "")
 	}
@@ -427,7 +515,10 @@ func (u *Unit) invokeCall(fr *frame, st *State, call *ssa.CallCommon, recv Value
 			rest.G = u.ctx.Named("g", And(rest.G, Not(is)))
 			var rv Value
 			k := payloadKind(im.recvT)
-			if k == "?" {
+			if k == "?" && isStructType(im.recvT) {
+				bt := rsc.T
+				rv = &StructV{Typ: im.recvT, Box: &bt, BoxKey: typeKey(im.recvT)}
+			} else if k == "?" {
 				rv = u.freshValue(im.recvT, "recv")
 			} else {
 				rv = Sc{app("ipay"+k, scalarSort(im.recvT), rsc.T), im.recvT}
@@ -543,7 +634,7 @@ func (u *Unit) execAppend(st *State, call *ssa.CallCommon, args []Value, pos tok
 		arr := u.heapGet(st, fam, sortv)
 		n := u.ctx.Fresh("H", sortv)
 		// frame + prefix copy + suffix copy
-		q := fmt.Sprintf("(forall ((p Int)) (! (= (select %s p) (ite (= (ea_base p) %s) (ite (< (ea_idx p) %s) (select %s (ea %s (+ %s (ea_idx p)))) (select %s (ea %s (+ %s (- (ea_idx p) %s))))) (select %s p))) :pattern ((select %s p))))",
+		q := fmt.Sprintf("(forall ((p Int)) (! (= (select %s p) (ite (and (= (ea_base p) %s) (= p (ea (ea_base p) (ea_idx p)))) (ite (< (ea_idx p) %s) (select %s (ea %s (+ %s (ea_idx p)))) (select %s (ea %s (+ %s (- (ea_idx p) %s))))) (select %s p))) :pattern ((select %s p))))",
 			n.S, r.S, s.Len.S, arr.S, s.Arr.S, s.Off.S, arr.S, t.Arr.S, t.Off.S, s.Len.S, arr.S, n.S)
 		u.ctx.Assert(Implies(st.G, Term{q, SBool}), "append-copy")
 		st.Heap[fam] = n
@@ -551,7 +642,13 @@ func (u *Unit) execAppend(st *State, call *ssa.CallCommon, args []Value, pos tok
 		u.written[fam] = true
 	}
 	if isStructType(elem) {
-		u.forEachFlatFam(elem, func(fam, sortv string) { copyFam(fam, sortv) })
+		u.usedStructAppend = true
+		u.forEachFlatFam(elem, func(fam, sortv string) {
+			if u.relevant != nil && !u.relevant[fam] {
+				return
+			}
+			copyFam(fam, sortv)
+		})
 		u.note("append of struct elements: nested struct fields copied per family at element addresses (sub-addresses of elements are not re-based)")
 	} else {
 		for _, c := range comps(elem) {
@@ -617,6 +714,17 @@ func (u *Unit) scanCallWrites(fr *frame, call *ssa.CallCommon, ws *writeSet, inL
 			u.scanContractWrites(c, ws)
 			return
 		}
+		if n, ok := call.Value.Type().(*types.Named); ok && n.Obj().Pkg() != nil && isNoopCallee(n.Obj().Pkg().Path(), call.Method.Name()) {
+			return
+		}
+		impls := u.w.implementations(call.Value.Type(), call.Method)
+		if len(impls) > 0 && len(impls) <= 4 {
+			// the case split applies at execution; unknown dynamic types havoc on an (expected unreachable) path
+			for _, im := range impls {
+				u.scanFuncWrites(fr, im.fn, ws, depth)
+			}
+			return
+		}
 		ws.all, ws.why = true, "interface call "+call.Method.Name()
 		return
 	}
@@ -663,6 +771,9 @@ func (u *Unit) scanFuncWrites(fr *frame, callee *ssa.Function, ws *writeSet, dep
 		if externalWrites[full] {
 			ws.all, ws.why = true, "external "+full
 		}
+		if wf, ok := externalWriteFams[full]; ok {
+			wf(u, callee, ws)
+		}
 		return
 	}
 	if isNoopCallee(funcPkgPath(callee), callee.Name()) {
@@ -673,8 +784,12 @@ func (u *Unit) scanFuncWrites(fr *frame, callee *ssa.Function, ws *writeSet, dep
 		u.scanContractWrites(c, ws)
 		return
 	}
+	if callee.Name() == "DeepCopy" {
+		ws.allocs = true
+		return
+	}
 	if callee.Blocks == nil {
-		if !externalIsScalarPure(callee) {
+		if !externalIsScalarPure(callee) && !externalReadonly[full] {
 			ws.all, ws.why = true, "external "+full
 		}
 		return
